@@ -11,7 +11,7 @@
    that reach the files are findings F13 / F14 (reproduced on the real code by the harness); the
    theorems named *_fixed_* are about the tree with fixes/F13.diff, fixes/F14.diff applied. *)
 From Coq Require Import List String Bool Arith Permutation Sorted.
-From NIC Require Import Base.SMap Determ.Model Determ.Proofs Determ.Table Determ.Inventory gen.MapRanges.
+From NIC Require Import Base.SMap Determ.Model Determ.Proofs Determ.ProofsTable Determ.ProofsInventory gen.MapRanges.
 Import ListNotations.
 Open Scope string_scope.
 
